@@ -129,6 +129,9 @@ pub fn partial_clause(prop: &str, clause: &str, wi: usize, view: &View, visits: 
 }
 
 pub fn walker_probes(w: &Walker, out: &mut Outcome) {
+    if let Ok(beh) = crate::exec::behavior(w, DUMMY_ROOT) {
+        out.probe(format!("behaviour-passed-as:{}", crate::exec::beh_arg(w.form, beh).1));
+    }
     out.probe(format!("spelling:{:?}", w.spelling));
     out.probe(format!(
         "order:{}",
@@ -199,6 +202,7 @@ pub fn underlying_source(
                 layers: vec![],
                 taps: false,
                 erased: false,
+                form: 0,
             };
             if !cycle_above_prefix(model, &probe) {
                 return Source::Glob { expr: e, rooted: r };
